@@ -217,3 +217,112 @@ theorem clientHeaders_none_iff : ∀ args : List CArg,
         · exact ⟨b, hb, hbk, h⟩
 
 end ConjureVerif.Call
+
+namespace ConjureVerif.Call
+open ConjureVerif ConjureVerif.Endpoint ConjureVerif.Uri ConjureVerif.C07
+
+theorem authorization_ne_cookie : authorization ≠ cookie := by decide
+
+/-- the `Authorization` values the client emits are exactly those of the auth arguments -/
+theorem clientHeaders_auth_vals : ∀ (args : List CArg) (hs : List (Endpoint.Bytes × Endpoint.Bytes)),
+    clientHeaders args = some hs →
+    (∀ a ∈ args, a.spec.kind = .header → a.spec.name ≠ authorization) →
+    (hs.filter (fun h => h.1 == authorization)).map (·.2) =
+      (args.filter (fun a => a.spec.kind == .auth)).map (fun a => bearer ++ a.texts.headD [])
+  | [], hs, h, _ => by simp [clientHeaders] at h; subst h; rfl
+  | a :: rest, hs, h, hres => by
+    unfold clientHeaders at h
+    have hres' : ∀ b ∈ rest, b.spec.kind = .header → b.spec.name ≠ authorization :=
+      fun b hb => hres b (List.mem_cons_of_mem _ hb)
+    cases hk : a.spec.kind <;> simp only [hk] at h
+    case header =>
+      split at h
+      · cases hr : clientHeaders rest with
+        | none => simp [hr] at h
+        | some hs' =>
+          simp only [hr, Option.map_some, Option.some.injEq] at h
+          subst h
+          have ih := clientHeaders_auth_vals rest hs' hr hres'
+          have hn : (a.spec.name == authorization) = false := by
+            cases hh : a.spec.name == authorization
+            · rfl
+            · exact absurd (eq_of_beq hh) (hres a (by simp) hk)
+          have : (a.texts.map (fun t => (a.spec.name, t))).filter (fun h => h.1 == authorization) = [] := by
+            apply List.filter_eq_nil_iff.mpr; intro kv hkv
+            simp only [List.mem_map] at hkv; obtain ⟨t, -, rfl⟩ := hkv; simp [hn]
+          simp only [List.filter_append, List.map_append, this, List.map_nil, List.nil_append, ih]
+          simp [List.filter_cons, hk]
+      · cases h
+    case auth =>
+      cases hr : clientHeaders rest with
+      | none => simp [hr] at h
+      | some hs' =>
+        simp only [hr, Option.map_some, Option.some.injEq] at h
+        subst h
+        have ih := clientHeaders_auth_vals rest hs' hr hres'
+        simp [List.filter_cons, hk, ih]
+    case cookie =>
+      cases hr : clientHeaders rest with
+      | none => simp [hr] at h
+      | some hs' =>
+        simp only [hr, Option.map_some, Option.some.injEq] at h
+        subst h
+        have ih := clientHeaders_auth_vals rest hs' hr hres'
+        have : (cookie == authorization) = false := by decide
+        simp [List.filter_cons, this, hk, ih]
+    all_goals
+      have ih := clientHeaders_auth_vals rest hs h hres'
+      simp [List.filter_cons, hk, ih]
+
+/-- and likewise the `Cookie` values are those of the cookie-auth arguments -/
+theorem clientHeaders_cookie_vals : ∀ (args : List CArg) (hs : List (Endpoint.Bytes × Endpoint.Bytes)),
+    clientHeaders args = some hs →
+    (∀ a ∈ args, a.spec.kind = .header → a.spec.name ≠ cookie) →
+    (hs.filter (fun h => h.1 == cookie)).map (·.2) =
+      (args.filter (fun a => a.spec.kind == .cookie)).map (fun a => a.spec.name ++ a.texts.headD [])
+  | [], hs, h, _ => by simp [clientHeaders] at h; subst h; rfl
+  | a :: rest, hs, h, hres => by
+    unfold clientHeaders at h
+    have hres' : ∀ b ∈ rest, b.spec.kind = .header → b.spec.name ≠ cookie :=
+      fun b hb => hres b (List.mem_cons_of_mem _ hb)
+    cases hk : a.spec.kind <;> simp only [hk] at h
+    case header =>
+      split at h
+      · cases hr : clientHeaders rest with
+        | none => simp [hr] at h
+        | some hs' =>
+          simp only [hr, Option.map_some, Option.some.injEq] at h
+          subst h
+          have ih := clientHeaders_cookie_vals rest hs' hr hres'
+          have hn : (a.spec.name == cookie) = false := by
+            cases hh : a.spec.name == cookie
+            · rfl
+            · exact absurd (eq_of_beq hh) (hres a (by simp) hk)
+          have : (a.texts.map (fun t => (a.spec.name, t))).filter (fun h => h.1 == cookie) = [] := by
+            apply List.filter_eq_nil_iff.mpr; intro kv hkv
+            simp only [List.mem_map] at hkv; obtain ⟨t, -, rfl⟩ := hkv; simp [hn]
+          simp only [List.filter_append, List.map_append, this, List.map_nil, List.nil_append, ih]
+          simp [List.filter_cons, hk]
+      · cases h
+    case auth =>
+      cases hr : clientHeaders rest with
+      | none => simp [hr] at h
+      | some hs' =>
+        simp only [hr, Option.map_some, Option.some.injEq] at h
+        subst h
+        have ih := clientHeaders_cookie_vals rest hs' hr hres'
+        have : (authorization == cookie) = false := by decide
+        simp [List.filter_cons, this, hk, ih]
+    case cookie =>
+      cases hr : clientHeaders rest with
+      | none => simp [hr] at h
+      | some hs' =>
+        simp only [hr, Option.map_some, Option.some.injEq] at h
+        subst h
+        have ih := clientHeaders_cookie_vals rest hs' hr hres'
+        simp [List.filter_cons, hk, ih]
+    all_goals
+      have ih := clientHeaders_cookie_vals rest hs h hres'
+      simp [List.filter_cons, hk, ih]
+
+end ConjureVerif.Call
